@@ -32,7 +32,7 @@ func f(t string, list bool) [2]interface{} { return [2]interface{}{t, list} }
 
 var fields = map[string]map[string][2]interface{}{
 	"Query": {"users": f("User", true), "user1": f("User", false), "nobody": f("User", false), "everyone": f("Everyone", true),
-		"devices": f("Device", true), "count": f("Int", false),
+		"devices": f("Device", true), "devicesN": f("Device", true), "count": f("Int", false),
 		"userById1": f("User", false), "userById3": f("User", false), "userById9": f("User", false)},
 	"User": {"id": f("Int", false), "orgId": f("Int", false), "name": f("String", false), "secret": f("String", false),
 		"score": f("Int", false), "device": f("Device", false), "devices": f("Device", true), "tags": f("String", true),
